@@ -28,7 +28,7 @@ def one(patch):
 
 
 def main():
-  d = sys.argv[1]
+  d = os.path.abspath(sys.argv[1])
   jobs = int(sys.argv[sys.argv.index("--jobs") + 1]) if "--jobs" in sys.argv else 8
   patches = sorted(glob.glob(os.path.join(d, "refactor_*.diff")))
   bad = 0
